@@ -106,6 +106,9 @@ def run(run):
                 for cd in conds:
                     if cd[0] == "if":
                         cs.append((sy.ev(cd[1], env), cd[2]))
+                    elif cd[0] == "letelse" and "i" in cd[1]:
+                        # `let Some(x) = e else { return }` guards the rest of the block like `if let Some(x) = e`
+                        cs.append((("let", T.show_pat(cd[1]["p"]), sy.ev(cd[1]["i"], env)), cd[2]))
                 out.append((n, cs))
             return out
 
@@ -121,18 +124,46 @@ def run(run):
             for n, cs in conds_of(lambda x, kind=kind: (x.get("k") == "Adt" and x["adt"].endswith("graph::Edge") and x["v"] == kind) or (x.get("k") == "Call" and x.get("f", "").endswith("Edge::" + kind))):
                 run.check("R1", "call|%s-iff-internal-target-known" % kind, has(cs, is_extern, False) and has(cs, tgt_some, True), "%s edges must be built for calls to internal functions whose entry node is known; conditions: %s" % (kind, [(fmt(c)[:60], p) for c, p in cs]), F.loc(n))
         recs = conds_of(lambda x: T.is_call(x, ("entry", "insert")) and x["a"] and T.self_field(x["a"][0]) == "return_addresses")
-        run.check("R1", "call|return-linkage-recorded", len(recs) >= 1 and all(has(cs, is_extern, False) and sum(1 for c, p in cs if c[0] == "let" and c[1].startswith("Some") and p) >= 2 for n, cs in recs),
-                  "a return address must be recorded for an internal call iff the call-source node and the return node exist", F.loc(arm["b"]))
+        is_rec = lambda x: T.is_call(x, ("entry", "insert")) and x["a"] and T.self_field(x["a"][0]) == "return_addresses"
+        if not recs and any(is_rec(x) for x in T.walk_deep(F, arm["b"], 2)):
+            run.undecided("R1", "call|return-linkage-recorded", "the return address is recorded in a helper of the Call arm; its conditions are not traced", F.loc(arm["b"]))
+        else:
+            run.check("R1", "call|return-linkage-recorded", len(recs) >= 1 and all(has(cs, is_extern, False) and sum(1 for c, p in cs if c[0] == "let" and c[1].startswith("Some") and p) >= 2 for n, cs in recs),
+                      "a return address must be recorded for an internal call iff the call-source node and the return node exist", F.loc(arm["b"]))
         # CallInd: stub iff return target
-        arm = T.arms_for_variant(m, "CallInd")[0]
+        is_stub = lambda x: (x.get("k") == "Adt" and x["adt"].endswith("graph::Edge") and x["v"] == "ExternCallStub") or (x.get("k") == "Call" and x.get("f", "").endswith("Edge::ExternCallStub"))
         ok = False
-        for n, conds in T.paths_to(arm["b"], lambda x: (x.get("k") == "Adt" and x["adt"].endswith("graph::Edge") and x["v"] == "ExternCallStub") or (x.get("k") == "Call" and x.get("f", "").endswith("Edge::ExternCallStub"))):
-            for cd in conds:
-                if cd[0] == "if" and cd[2] is True:
-                    c = sy.ev(cd[1], env)
-                    if c[0] == "let" and c[1].startswith("Some") and any(isinstance(y, tuple) and y and y[0] == "field" and y[2] == "CallInd.return_" for y in S.subterms(c[2])):
-                        ok = True
-        run.check("R1", "callind|stub-iff-returns", ok, "an indirect call gets its stub edge exactly when it has a return target", F.loc(arm["b"]))
+        stub_sites = 0
+        for arm in T.arms_for_variant(m, "CallInd"):
+            # the arm's own pattern may already require a return target: CallInd { return_: Some(..), .. }
+            pat_some = False
+            for vp in SL.variant_subpatterns(arm["p"], "jmp::Jmp", "CallInd"):
+                sp_ = T.pat_field(vp, "return_")
+                if sp_ is not None and T.pat_variant_names(sp_) == {"Some"}:
+                    pat_some = True
+            for n, conds in T.paths_to(arm["b"], is_stub):
+                stub_sites += 1
+                good = pat_some
+                for cd in conds:
+                    c = None
+                    if cd[0] == "if" and cd[2] is True:
+                        c = sy.ev(cd[1], env)
+                    elif cd[0] == "letelse" and cd[2] is True and "i" in cd[1]:
+                        c = ("let", T.show_pat(cd[1]["p"]), sy.ev(cd[1]["i"], env))
+                    if c is not None and c[0] == "let" and c[1].startswith("Some") and any(isinstance(y, tuple) and y and y[0] == "field" and y[2] == "CallInd.return_" for y in S.subterms(c[2])):
+                        good = True
+                if good:
+                    ok = True
+                else:
+                    ok = None if ok is not True else ok
+                    bad_site = n
+        arm = T.arms_for_variant(m, "CallInd")[0]
+        if stub_sites == 0 and any(is_stub(x) for a_ in T.arms_for_variant(m, "CallInd") for x in T.walk_deep(F, a_["b"], 2)):
+            ok = "helper"
+        if ok == "helper":
+            run.undecided("R1", "callind|stub-iff-returns", "the stub edge of an indirect call is built in a helper; its conditions are not traced", F.loc(arm["b"]))
+        else:
+            run.check("R1", "callind|stub-iff-returns", ok is True, "an indirect call gets its stub edge exactly when it has a return target", F.loc(arm["b"]))
         # call-return linkage
         fn = gb_fns.get("add_call_return_node_and_edges")
         if fn is None:
